@@ -63,4 +63,51 @@ def effectiveMaxRep (arg : Option Int) (dflt : Int) : Int :=
   | some m => if m = 0 then dflt else m
   | none => dflt
 
+/-! ## `refresh()` of the sync and async clients (SNMPv3 engine discovery / time synchronisation) -/
+
+/-- the part of `SnmpSession` that `refresh()` reads and writes -/
+structure RefreshState where
+  isV3 : Bool
+  deferred : Bool        -- `_deferred_user is not None`: the real user waits for the engine id
+  toRefresh : Bool       -- `_to_refresh`
+  requireAuth : Bool     -- `user.require_auth()` of the (deferred or configured) user
+  deriving Repr, DecidableEq
+
+inductive Act where
+  | probe (answered : Bool)   -- `_sock.refresh()`: an empty reportable GET; `false` = it raised (timeout)
+  | setKeys                   -- `_sock.set_keys(deferred user ...)`
+  deriving Repr, DecidableEq
+
+/-- `__init__`: `_to_refresh = not engine_id or user.require_auth()`; without an engine id the user is deferred -/
+def RefreshState.init (engineIdGiven requireAuth : Bool) : RefreshState :=
+  ⟨true, !engineIdGiven, !engineIdGiven || requireAuth, requireAuth⟩
+
+/-- one `refresh()` call; `outcomes` = whether the successive probes get answered. Returns the actions
+performed, whether the call raised, the state afterwards and the unused outcomes. -/
+def refresh (st : RefreshState) (outcomes : List Bool) : List Act × Bool × RefreshState × List Bool :=
+  if !st.isV3 || !st.toRefresh then ([], false, st, outcomes)
+  else if st.deferred then
+    match outcomes with
+    | [] => ([.probe false], true, st, [])
+    | false :: rest => ([.probe false], true, st, rest)
+    | true :: rest =>
+      let st' := { st with toRefresh := st.requireAuth, deferred := false }
+      match rest with
+      | [] => ([.probe true, .setKeys, .probe false], true, st', [])
+      | false :: rest' => ([.probe true, .setKeys, .probe false], true, st', rest')
+      | true :: rest' => ([.probe true, .setKeys, .probe true], false, st', rest')
+  else
+    match outcomes with
+    | [] => ([.probe false], true, st, [])
+    | false :: rest => ([.probe false], true, st, rest)
+    | true :: rest => ([.probe true], false, st, rest)
+
+/-- a history of `refresh()` calls (each consumes outcomes as needed) -/
+def refreshes : Nat → RefreshState → List Bool → List (List Act × Bool) × RefreshState
+  | 0, st, _ => ([], st)
+  | n + 1, st, outcomes =>
+    let r := refresh st outcomes
+    let more := refreshes n r.2.2.1 r.2.2.2
+    ((r.1, r.2.1) :: more.1, more.2)
+
 end GufoSnmp.Py
